@@ -122,6 +122,9 @@ pub struct DeviceSpec {
     /// Strict: only as many FMMUs / SMs exist as the SII declares, and state transitions check
     /// the sync manager configuration as slave stacks do
     pub strict: bool,
+    /// (PDO index, factor) the device application is configured for
+    #[serde(default)]
+    pub oversampling: Vec<(u16, u16)>,
     pub od: Vec<Object>,
     pub upload: UploadPolicy,
     /// Seed for the content of the input process memory
@@ -723,7 +726,11 @@ impl Device {
 
             let cat = if usage == 3 { sii::CAT_RXPDO } else { sii::CAT_TXPDO };
             let bits: u32 = match s.find(cat) {
-                Some(Category::RxPdo(p)) | Some(Category::TxPdo(p)) => p.iter().filter(|p| usize::from(p.sm) == i).map(|p| p.bit_len()).sum(),
+                Some(Category::RxPdo(p)) | Some(Category::TxPdo(p)) => p
+                    .iter()
+                    .filter(|p| usize::from(p.sm) == i)
+                    .map(|p| p.bit_len() * self.spec.oversampling.iter().find(|(idx, _)| *idx == p.index).map(|(_, f)| u32::from(*f)).unwrap_or(1))
+                    .sum(),
                 _ => 0,
             };
 
